@@ -157,6 +157,7 @@ def run(ck, fb, fbd):
             (ck.ok if (ok and full) else lambda r, w, t: ck.violate(r, w, t, "C19.compwise:%s" % name))("C19.compwise", f.where, "%s::%s uses %s over the full extent" % (f.cls.replace("OpenVolumeMesh::Geometry::", ""), name, std))
     abs_reductions(ck, fb)
     norm_and_apply(ck, fb)
+    compare_rule(ck, fb)
     normal_attrib(ck, fb)
     # ---------------- geometry kernel
     ng = 0
@@ -261,6 +262,48 @@ def norm_and_apply(ck, fb):
         ok = len(tr) == 1 and len(tr[0].get("a", [])) >= 3 and cn.s(tr[0]["a"][0]).replace("this.", "") in ("values_.cbegin()", "values_.begin()") and cn.s(tr[0]["a"][1]).replace("this.", "") in ("values_.cend()", "values_.end()") and re.fullmatch(r"(v\d+|VectorT\(\))\.values_\.begin\(\)", cn.s(tr[0]["a"][2]) or "") is not None
         (ck.ok if ok else lambda r, w, t: ck.violate(r, w, t, "C19.apply"))("C19.apply", f.where, "%s::apply transforms values_ into the result (found transform(%s))" % (f.cls.replace("OpenVolumeMesh::Geometry::", ""), ", ".join(cn.s(a)[:25] for a in (tr[0].get("a", []) if tr else []))))
     ck.floor("norm_and_apply_members", n, 3)
+
+
+def compare_rule(ck, fb):
+    """operator== / != / <: value comparison of all components, never a comparison of the representation"""
+    from .canon import Canon
+    ck.rule("C19.compare", "operator== is std::equal over all components of both vectors (or the arrays' ==), operator!= its negation, operator< is std::lexicographical_compare(this, rhs) in that order; a byte comparison (memcmp) is a violation - equal values can differ in representation (-0.0 == 0.0) and unequal ones can share it (NaN)")
+    R = r"(?:P0\.)?values_\.c?(?:begin|end)\(\)"
+    n = 0
+
+    def eq_form(s_):
+        m = re.fullmatch(r"equal\((P0\.)?values_\.c?begin\(\), (P0\.)?values_\.c?end\(\), (P0\.)?values_\.c?begin\(\)\)", s_)
+        if m:
+            return bool(m.group(1)) == bool(m.group(2)) and bool(m.group(3)) != bool(m.group(1))
+        return s_ in ("(P0.values_ == values_)", "(values_ == P0.values_)")
+    for name in ("operator==", "operator!=", "operator<"):
+        for f in vec_fns(fb, name=name):
+            cn = Canon(f)
+            rets = [cn.s(x.get("x")) for b, i, x in f.tops() if x.get("k") == "ret" and b in f.reach()]
+            calls = {x.get("pn", "") for b, i, x in f.nodes(("call",)) if b in f.reach()}
+            n += 1
+            cls = f.cls.replace("OpenVolumeMesh::Geometry::", "")
+            if calls & {"memcmp", "std::memcmp", "bcmp", "std::bcmp"} or any("memcmp" in r_ for r_ in rets):
+                if re.match(r"VectorT<(float|double|long double)\b", cls):
+                    ck.violate("C19.compare", f.where, "%s::%s compares component values, not bytes (found %s)" % (cls, name, rets[:1]), "C19.compare:%s:bytes" % name)
+                else:
+                    ck.cannot_judge("C19.compare %s: %s::%s compares bytes (%s): exact only for scalar types without padding or redundant representations - not judged" % (f.where, cls, name, rets[:1]))
+                continue
+            s_ = rets[0] if len(rets) == 1 else ""
+            if name == "operator==":
+                ok = eq_form(s_)
+            elif name == "operator!=":
+                ok = (s_.startswith("!") and eq_form(s_[1:])) or s_ in ("!(this == P0)", "!operator==(P0)", "!(*this == P0)", "!(P0 == this)", "!(P0 == *this)")
+            else:
+                ok = bool(re.fullmatch(r"lexicographical_compare\(values_\.c?begin\(\), values_\.c?end\(\), P0\.values_\.c?begin\(\), P0\.values_\.c?end\(\)\)", s_)) or s_ in ("(values_ < P0.values_)",)
+                if not ok and re.fullmatch(r"lexicographical_compare\(P0\.values_\.c?begin\(\), P0\.values_\.c?end\(\), values_\.c?begin\(\), values_\.c?end\(\)\)", s_):
+                    ck.violate("C19.compare", f.where, "%s::operator< compares *this with the argument, in that order (found %s)" % (cls, s_[:90]), "C19.compare:less:order")
+                    continue
+            if ok:
+                ck.ok("C19.compare", f.where, "%s::%s = %s" % (cls, name, s_[:90]))
+            else:
+                ck.cannot_judge("C19.compare %s: %s::%s is written in a form the rule does not know (%s) - not judged" % (f.where, cls, name, rets[:2]))
+    ck.floor("comparison_operators", n, 3)
 
 
 def abs_reductions(ck, fb):
